@@ -134,6 +134,14 @@ R2LEof ==
     /\ UNCHANGED <<phase, rejected, reqp, cs, cclosed, ts, tclosed, buf, waited, dialp, tg, cg, l2r, r2l, l2rdone, tshut, reply, stats>>
     /\ act' = [n |-> "R2LEof"]
 
+\* the target resets the connection (RST) after everything it sent was relayed and the client has finished: the
+\* target-to-client copy ends with an error; the session is still over and still has to be accounted
+TargetAbort ==
+    /\ phase = "copy" /\ l2rdone /\ ~r2ldone /\ ~tclosed /\ r2l = ts
+    /\ tclosed' = TRUE /\ r2ldone' = TRUE /\ cshut' = TRUE
+    /\ UNCHANGED <<phase, rejected, reqp, cs, cclosed, ts, buf, waited, dialp, tg, cg, l2r, r2l, l2rdone, tshut, reply, stats>>
+    /\ act' = [n |-> "TargetAbort"]
+
 \* both loops ended: CollectTCPSession(username, nr2l, nl2r + len(payload)); connections closed
 Collect ==
     /\ phase = "copy" /\ l2rdone /\ r2ldone
@@ -144,7 +152,7 @@ Collect ==
 
 Next ==
     \/ \E k \in 1..MaxBytes : ClientSend(k) \/ TargetSend(k) \/ CopyL2R(k) \/ CopyR2L(k)
-    \/ ClientClose \/ TargetClose \/ Route \/ Decide \/ ReadInitial \/ L2REof \/ R2LEof \/ Collect
+    \/ ClientClose \/ TargetClose \/ TargetAbort \/ Route \/ Decide \/ ReadInitial \/ L2REof \/ R2LEof \/ Collect
     \/ \E c \in Codes : Dial(c)
 
 \* the relay's own steps (the peers are not obliged to do anything)
